@@ -263,3 +263,290 @@ func (c *VCtx) curTopFrame(fr *Frame) *Frame {
 	}
 	return nil
 }
+
+// localRaceSweep: a local variable that is captured (possibly through nested closures) by a function started
+// with "go", read or written there, and written by the declaring function after the capturing closure was
+// created, is accessed by two goroutines without any ordering between the accesses - unless a local monitor
+// guards it. One static obligation per such variable (C13).
+func (c *VCtx) localRaceSweep(fn *ssa.Function) {
+	guarded := map[string]bool{}
+	if ct := c.contract; ct != nil && ct.LocalMon != nil {
+		for _, v := range ct.LocalMon.Vars {
+			guarded[v] = true
+		}
+		guarded[ct.LocalMon.LockVar] = true
+	}
+	// does closure g (transitively) contain a go-started function that touches free variable #idx?
+	var usedByGo func(g *ssa.Function, idx int, spawned bool, depth int) bool
+	usedByGo = func(g *ssa.Function, idx int, spawned bool, depth int) bool {
+		if depth > 6 || idx >= len(g.FreeVars) {
+			return false
+		}
+		fv := g.FreeVars[idx]
+		for _, ref := range *fv.Referrers() {
+			switch x := ref.(type) {
+			case *ssa.UnOp, *ssa.Store:
+				if spawned {
+					return true
+				}
+			case *ssa.MakeClosure:
+				inner := x.Fn.(*ssa.Function)
+				for j, b := range x.Bindings {
+					if b != fv {
+						continue
+					}
+					sp := spawned
+					for _, r2 := range *x.Referrers() {
+						if _, isGo := r2.(*ssa.Go); isGo {
+							sp = true
+						}
+					}
+					if usedByGo(inner, j, sp, depth+1) {
+						return true
+					}
+				}
+			}
+		}
+		return false
+	}
+	for _, b := range fn.Blocks {
+		for _, in := range b.Instrs {
+			a, ok := in.(*ssa.Alloc)
+			if !ok || a.Comment == "" || guarded[a.Comment] || a.Referrers() == nil {
+				continue
+			}
+			var closures []*ssa.MakeClosure
+			for _, ref := range *a.Referrers() {
+				if mc, ok := ref.(*ssa.MakeClosure); ok {
+					for j, bnd := range mc.Bindings {
+						if bnd == a {
+							sp := false
+							for _, r2 := range *mc.Referrers() {
+								if _, isGo := r2.(*ssa.Go); isGo {
+									sp = true
+								}
+							}
+							if usedByGo(mc.Fn.(*ssa.Function), j, sp, 0) {
+								closures = append(closures, mc)
+							}
+						}
+					}
+				}
+			}
+			if len(closures) == 0 {
+				continue
+			}
+			racy := ""
+			for _, ref := range *a.Referrers() {
+				st, ok := ref.(*ssa.Store)
+				if !ok || st.Addr != a {
+					continue
+				}
+				for _, mc := range closures {
+					after := mc.Block() == st.Block() && indexIn(mc.Block(), mc) < indexIn(st.Block(), st)
+					// (a path that goes through the variable's declaration again creates a new variable)
+					if after || (mc.Block() != st.Block() && blockReachesAvoiding(mc.Block(), st.Block(), a.Block())) {
+						if orderedByClose(fn, a, st) {
+							continue
+						}
+						racy = c.eng.pos(st.Pos())
+					}
+				}
+			}
+			desc := fmt.Sprintf("local variable %s is not written by its function after a goroutine that uses it may have been started", a.Comment)
+			if racy != "" {
+				c.staticObl("own.local."+a.Comment, desc, false, "written at "+racy+" after being captured by a closure that starts (or is) a goroutine reading it; no lock orders the two accesses")
+			} else {
+				c.staticObl("own.local."+a.Comment, desc, true, "")
+			}
+			c.obls[len(c.obls)-1].Props = c.ownProps()
+		}
+	}
+}
+
+func indexIn(b *ssa.BasicBlock, in ssa.Instruction) int {
+	for i, x := range b.Instrs {
+		if x == in {
+			return i
+		}
+	}
+	return -1
+}
+
+// orderedByClose: the write st to local variable v is published by a close(ch) of a local channel variable that
+// follows it, and every go-started function that uses v first receives from that channel.
+func orderedByClose(fn *ssa.Function, v *ssa.Alloc, st *ssa.Store) bool {
+	for _, b := range fn.Blocks {
+		for i, in := range b.Instrs {
+			call, ok := in.(*ssa.Call)
+			if !ok {
+				continue
+			}
+			bi, ok := call.Call.Value.(*ssa.Builtin)
+			if !ok || bi.Name() != "close" {
+				continue
+			}
+			ld, ok := call.Call.Args[0].(*ssa.UnOp)
+			if !ok {
+				continue
+			}
+			chVar, ok := ld.X.(*ssa.Alloc)
+			if !ok {
+				continue
+			}
+			// the close comes after the write
+			if !(b == st.Block() && indexIn(b, st) < i) && !(b != st.Block() && blockReaches(st.Block(), b) && !blockReaches(b, st.Block())) {
+				continue
+			}
+			if usesAfterRecv(fn, v, chVar, 0) {
+				return true
+			}
+		}
+	}
+	return false
+}
+
+// usesAfterRecv: in every go-started function reachable through closures of g that captures v, each use of v
+// is dominated by a receive from chVar (captured as well).
+func usesAfterRecv(g *ssa.Function, v, chVar ssa.Value, depth int) bool {
+	if depth > 6 || v.Referrers() == nil {
+		return false
+	}
+	ok := true
+	for _, ref := range *v.Referrers() {
+		mc, isMC := ref.(*ssa.MakeClosure)
+		if !isMC {
+			continue
+		}
+		inner := mc.Fn.(*ssa.Function)
+		var iv, ic *ssa.FreeVar
+		for j, b := range mc.Bindings {
+			if b == v {
+				iv = inner.FreeVars[j]
+			}
+			if b == chVar {
+				ic = inner.FreeVars[j]
+			}
+		}
+		if iv == nil {
+			continue
+		}
+		spawned := false
+		for _, r2 := range *mc.Referrers() {
+			if _, isGo := r2.(*ssa.Go); isGo {
+				spawned = true
+			}
+		}
+		if spawned {
+			if ic == nil || !readsDominatedByRecv(inner, iv, ic) {
+				ok = false
+			}
+			continue
+		}
+		// a closure that is not itself started with go: its own direct uses are synchronous (same goroutine as
+		// whoever calls it, ordered by that call); look for goroutines started inside it
+		if ic == nil {
+			// the channel is not visible below this closure: any go-started user further down cannot wait for it
+			if startsGoroutineUsing(inner, iv, 0) {
+				ok = false
+			}
+			continue
+		}
+		if !usesAfterRecv(inner, iv, ic, depth+1) {
+			ok = false
+		}
+	}
+	return ok
+}
+
+func readsDominatedByRecv(g *ssa.Function, v, ch *ssa.FreeVar) bool {
+	var recvs []ssa.Instruction
+	for _, r := range *ch.Referrers() {
+		ld, ok := r.(*ssa.UnOp)
+		if !ok || ld.Referrers() == nil {
+			continue
+		}
+		for _, r2 := range *ld.Referrers() {
+			if u, ok := r2.(*ssa.UnOp); ok && u.Op == token.ARROW {
+				recvs = append(recvs, u)
+			}
+		}
+	}
+	if len(recvs) == 0 {
+		return false
+	}
+	for _, r := range *v.Referrers() {
+		use, ok := r.(ssa.Instruction)
+		if !ok {
+			continue
+		}
+		dom := false
+		for _, rc := range recvs {
+			if rc.Block() == use.Block() && indexIn(rc.Block(), rc) < indexIn(use.Block(), use) {
+				dom = true
+			} else if rc.Block() != use.Block() && rc.Block().Dominates(use.Block()) {
+				dom = true
+			}
+		}
+		if !dom {
+			return false
+		}
+	}
+	return true
+}
+
+func startsGoroutineUsing(g *ssa.Function, v *ssa.FreeVar, depth int) bool {
+	if depth > 6 || v.Referrers() == nil {
+		return false
+	}
+	for _, ref := range *v.Referrers() {
+		if mc, ok := ref.(*ssa.MakeClosure); ok {
+			inner := mc.Fn.(*ssa.Function)
+			for j, b := range mc.Bindings {
+				if b != v {
+					continue
+				}
+				for _, r2 := range *mc.Referrers() {
+					if _, isGo := r2.(*ssa.Go); isGo {
+						return true
+					}
+				}
+				if startsGoroutineUsing(inner, inner.FreeVars[j], depth+1) {
+					return true
+				}
+			}
+		}
+	}
+	return false
+}
+
+// blockReachesAvoiding: is there a control-flow path from a to b that does not pass through avoid?
+// (b == avoid counts only if the store precedes nothing of interest: callers handle same-block order.)
+func blockReachesAvoiding(a, b, avoid *ssa.BasicBlock) bool {
+	seen := map[*ssa.BasicBlock]bool{}
+	var dfs func(x *ssa.BasicBlock) bool
+	dfs = func(x *ssa.BasicBlock) bool {
+		if x == avoid && x != a {
+			return false
+		}
+		if x == b {
+			return true
+		}
+		if seen[x] {
+			return false
+		}
+		seen[x] = true
+		for _, s := range x.Succs {
+			if dfs(s) {
+				return true
+			}
+		}
+		return false
+	}
+	for _, s := range a.Succs {
+		if dfs(s) {
+			return true
+		}
+	}
+	return false
+}
